@@ -4,7 +4,7 @@
 From V Require Export Base.Hex Merkle.Sha256 Proofs.History Proofs.Fixed Proofs.Gen.
 From V Require Import Proofs.CompleteFull.
 (* the _refuted witnesses of the known findings are re-checked whenever the model changes *)
-From V Require Import Proofs.Refuted.
+From V Require Import Proofs.Refuted Proofs.SessionEx.
 
 Definition Hs := sha256.
 Definition lbytes_eqb := list_eqb bytes_eqb.
